@@ -5,7 +5,7 @@ import math
 
 from . import lib
 
-ORD_VARS = ["x", "y", "z", "w", "alpha", "b2", "theta_long_name", "k", "X", "Alpha"]
+ORD_VARS = ["x", "y", "z", "w", "alpha", "b2", "theta_long_name", "k", "X", "Alpha", "whatever"]
 TRIP_VARS = ["t1", "t2", "t3"]
 MISS_VARS = ["m1", "m2"]
 
@@ -49,6 +49,10 @@ class Profile:
         self.twin_prob = rng.choice(b.get("twin_prob", [0.0, 0.2, 0.5]))
         self.mirror_prob = rng.choice(b.get("mirror_prob", [0.0, 0.05, 0.15]))
         self.sweep_prob = rng.choice(b.get("sweep_prob", [0.0, 0.1, 0.25]))
+        self.ovf_prob = rng.choice(b.get("ovf_prob", [0.0, 0.0, 0.03, 0.1]))
+        self.base_one_prob = rng.choice(b.get("base_one_prob", [0.0, 0.0, 0.05, 0.1]))
+        self.ovf_mid = b.get("ovf_mid", True)
+        self.fresh_names = rng.random() < b.get("fresh_names_prob", 0.3)
         self.arm_prob = rng.choice(b.get("arm_prob", [0.1, 0.25, 0.25, 0.5]))
         self.miss_prob = rng.choice(b.get("miss_prob", [0.2, 0.4, 0.6]))
         self.n_points = rng.randint(*b.get("n_points", (2, 5)))
@@ -76,6 +80,64 @@ def _const(rng, pr):
     return rng.choice(pr.const_pool)
 
 
+def _const_value(node, kid_values):
+    """Harness-side estimate of the value of a variable-free node (None: undefined / overflowing /
+    unknown).  Used for one purpose only: keeping astronomically large *exponents* out of Power nodes --
+    the library folds Power(u, C) to NthPower(u, int(C)) and computes x ** n exactly on int values, so a
+    variable-free exponent like 1e200 would have the simulator wait for a number with 10^200 digits."""
+    try:
+        op = node["op"]
+        if any(v is None for v in kid_values):
+            return None
+        k = [float(v) for v in kid_values]
+        if op == "Constant":
+            return float(node["value"])
+        if op == "Add":
+            r = sum(k)
+        elif op == "Multiply":
+            r = 1.0
+            for v in k:
+                r *= v
+        elif op == "Minus":
+            r = k[0] - k[1]
+        elif op == "Divide":
+            r = k[0] / k[1]
+        elif op == "Negation":
+            r = -k[0]
+        elif op == "Reciprocal":
+            r = 1.0 / k[0]
+        elif op == "Power":
+            r = k[0] ** k[1] if k[0] > 0 else None
+        elif op == "NthPower":
+            r = k[0] ** int(node["n"])
+        elif op == "NthRoot":
+            n = int(node["n"])
+            r = (abs(k[0]) ** (1.0 / n)) * (1 if k[0] > 0 else -1) if (k[0] > 0 or (n % 2 == 1 and k[0] != 0)) else None
+        elif op == "Exponential":
+            r = float(node["base"]) ** k[0]
+        elif op == "Logarithm":
+            r = math.log(k[0], float(node["base"])) if k[0] > 0 else None
+        elif op == "Cosine":
+            r = math.cos(k[0])
+        elif op == "Sine":
+            r = math.sin(k[0])
+        else:
+            return None
+        if r is None or r != r or abs(r) == float("inf"):
+            return None
+        return r
+    except (OverflowError, ZeroDivisionError, ValueError, TypeError):
+        return None
+
+
+def _bad_exponent(info, k):
+    """Exponent position of a Power: a variable-free sub-expression must be small and well defined."""
+    if info[k][2]:
+        return False
+    v = info[k][3]
+    return v is None or abs(v) > 100
+
+
 def gen_world(rng, pr):
     """Node table with sharing.  Returns (nodes, info) with info[i] = (depth, expanded_size, varlist)."""
     ord_vars = ORD_VARS[:]
@@ -99,7 +161,7 @@ def gen_world(rng, pr):
                 if v not in vs:
                     vs.append(v)
         nodes.append(node)
-        info.append((depth, size, vs))
+        info.append((depth, size, vs, None if vs else _const_value(node, [info[k][3] for k in kids])))
         return len(nodes) - 1
 
     var_ids = {}
@@ -135,9 +197,28 @@ def gen_world(rng, pr):
         memo[i] = add(node, kids)
         return memo[i]
 
+    ovf_nodes = []
+
     def pick_kid():
         r = rng.random()
         n = len(nodes)
+        if pr.ovf_prob and rng.random() < pr.ovf_prob:
+            # overflow tripwire: a variable-free sub-expression whose value leaves the double range.
+            # Evaluation fails part-way with OverflowError, and so does constant folding in the middle
+            # of a simplification (as_expression() / early construction raise and must leave no trace).
+            if not ovf_nodes or rng.random() < 0.3:
+                if rng.random() < 0.6 or not pr.ovf_mid:
+                    c = add({"op": "Constant", "value": rng.choice([1000, 800.0, 1000])})
+                    ovf_nodes.append(add({"op": "Exponential", "base": rng.choice([math.e, 10, 2.0])}, [c]))
+                else:
+                    # representable itself, but its square (quotient rule, chain rule) is not
+                    kind = rng.random()
+                    if kind < 0.5:
+                        c = add({"op": "Constant", "value": rng.choice([400, 200.0])})
+                        ovf_nodes.append(add({"op": "Exponential", "base": rng.choice([math.e, 10])}, [c]))
+                    else:
+                        ovf_nodes.append(add({"op": "Constant", "value": rng.choice([1e200, 1e160])}))
+            return rng.choice(ovf_nodes)
         if rng.random() < pr.clone_prob:
             cands = [i for i in range(n) if 2 <= info[i][1] <= 12 and info[i][0] >= 2]
             if cands:
@@ -169,6 +250,22 @@ def gen_world(rng, pr):
                 cand = ({"op": "Divide"}, [pick_kid(), t])
             else:
                 cand = ({"op": "Power"}, [t, pick_kid()])
+        elif rng.random() < pr.base_one_prob:
+            # Power whose variable-free base evaluates to exactly 1: the library short-cuts this case on
+            # its numeric routes (one of its few special branches; defect F1 lived here)
+            form = rng.choice(["c1", "c1f", "empty", "cos0", "sq"])
+            if form == "c1":
+                b1 = add({"op": "Constant", "value": 1})
+            elif form == "c1f":
+                b1 = add({"op": "Constant", "value": 1.0})
+            elif form == "empty":
+                b1 = add({"op": "Multiply"})
+            elif form == "cos0":
+                b1 = add({"op": "Cosine"}, [add({"op": "Constant", "value": 0})])
+            else:
+                b1 = add({"op": "NthPower", "n": 2}, [add({"op": "Constant", "value": -1})])
+            cand = ({"op": "Power"}, [b1, pick_kid()])
+            special = True
         elif rng.random() < pr.group_prob:
             # an n-ary node over several parameterised nodes of one class with few distinct
             # parameters: exercises the group-by-key consolidation rules (order-sensitive code)
@@ -238,6 +335,8 @@ def gen_world(rng, pr):
         size = 1 + sum(info[k][1] for k in kids)
         if depth > pr.max_depth or size > pr.max_size:
             continue
+        if node["op"] == "Power" and _bad_exponent(info, kids[1]):
+            continue
         made = add(node, kids)
         if special:
             pr.interesting.append(made)
@@ -293,9 +392,10 @@ class _Pool:
 
     def __init__(self, nodes, info):
         self.entries = []      # dicts: name, type, vars, size, owner, meta...
-        for i, (d, s, vs) in enumerate(info):
+        for i, (d, s, vs, cv) in enumerate(info):
             self.entries.append({"name": f"n{i}", "type": "E", "vars": vs, "size": s, "depth": d,
-                                 "owner": None, "root": f"n{i}"})
+                                 "owner": None, "root": f"n{i}",
+                                 "bad_exponent": (not vs) and (cv is None or abs(cv) > 100)})
 
     def of_type(self, *types):
         return [e for e in self.entries if e["type"] in types]
@@ -481,6 +581,8 @@ def gen_steps(rng, pr, nodes, info, all_vars, points):
                     via = "oper"
             elif op in lib.BINARY:
                 ks = [kid(), kid()]
+                if op == "Power" and (ks[1].get("bad_exponent") or ks[1].get("derived")):
+                    continue
                 if rng.random() < 0.4:
                     via = "oper"
             else:
@@ -506,7 +608,7 @@ def gen_steps(rng, pr, nodes, info, all_vars, points):
                 continue
             new_entry(st, "E", c, root=None, vars=vs, size=size,
                       depth=1 + max((x["depth"] for x in ks), default=0),
-                      derived=any(x.get("derived") for x in ks))
+                      derived=any(x.get("derived") for x in ks), bad_exponent=not vs)
         elif kind == "eq":
             a = rng.choice(pool.entries)
             same = [x for x in pool.entries if x["type"] == a["type"]]
@@ -533,7 +635,19 @@ def gen_scenario(rng, base=None):
     steps = gen_steps(rng, pr, nodes, info, all_vars, points)
     if rng.random() < pr.sweep_prob:
         steps = sweep_steps(rng, pr, nodes, info, points, steps)
-    return {"nodes": nodes, "points": points, "steps": steps, "vars": all_vars + ["absent_v"]}
+    scn = {"nodes": nodes, "points": points, "steps": steps, "vars": all_vars + ["absent_v"]}
+    _spell_names(rng, pr, scn)
+    return scn
+
+
+def _spell_names(rng, pr, scn):
+    """Argument spelling: names handed to the API as freshly built (non-interned) str objects, as they
+    would arrive from a file or from string formatting, instead of the interpreter's shared literals."""
+    if pr.fresh_names:
+        scn["fresh_names"] = True
+        for st in scn["steps"]:
+            if "v" in st and rng.random() < 0.5:
+                st["vfresh"] = True
 
 
 def sweep_steps(rng, pr, nodes, info, points, steps):
@@ -603,6 +717,9 @@ C06_BASE = {
     "max_size": 60, "n_points": (2, 4), "n_steps": (10, 36), "heavy_size": 40,
     "positive_bias": [0.0, 0.3, 0.6], "group_prob": [0.0, 0.1, 0.2],
     "const_pool": C06_CONST, "grid": C06_GRID,
+    # constants like 1e200 are representable but their squares (quotient rule) are not: routes then differ
+    # by silent under/overflow, which C06's "up to rounding / inside the double range" proviso excludes
+    "ovf_mid": False,
 }
 
 
@@ -617,7 +734,7 @@ def gen_c06(rng, base=None):
     nodes, info, ord_vars, trip_vars, miss_vars = gen_world(rng, pr)
     points = gen_points(rng, pr, ord_vars, trip_vars, miss_vars)
     all_vars = ord_vars + trip_vars
-    cands = [i for i, (d, s, vs) in enumerate(info) if d >= 2 and s <= pr.heavy_size]
+    cands = [i for i, (d, s, vs, _cv) in enumerate(info) if d >= 2 and s <= pr.heavy_size]
     if not cands:
         cands = [len(nodes) - 1]
     ws = [info[i][0] ** 2 for i in cands]
@@ -702,6 +819,9 @@ def gen_c06(rng, base=None):
                 if val is None:
                     continue
                 st.update(k="at", o=o["name"], num=val, as_p=p)
+            elif len(vs) == 0 and rng.random() < 0.6:
+                # an expression without variables accepts any bare number; every point is equivalent
+                st.update(k="at", o=o["name"], num=rng.choice(C06_GRID), as_p=p)
             else:
                 st.update(k="at", o=o["name"], p=p)
         elif kind == "compat":
@@ -739,8 +859,25 @@ def gen_c06(rng, base=None):
             st.update(k="at", o=f"n{rng.randrange(len(nodes))}", num=rng.choice(C06_GRID))
         steps.append(st)
         sid += 1
-    return {"nodes": nodes, "points": points, "steps": steps, "vars": all_vars + ["absent_v"],
-            "targets": [f"n{t}" for t in targets]}
+    if rng.random() < 0.2:
+        # systematic sweep: every route object for one (target, variable), queried at every point before
+        # and after the as_expression() switch, plus the equality promises -- then the random steps
+        from . import directed
+        t = rng.choice(targets)
+        sweep = directed._routes(f"n{t}", var_for(t), points, with_derivative=len(info[t][2]) <= 1)
+        for st in sweep:
+            st["c"] = rng.randrange(pr.n_clients)
+        off = len(sweep)
+        for st in steps:
+            st["id"] += off
+            for key in ("o", "e", "a", "b"):
+                if key in st and st[key][0] == "s":
+                    st[key] = f"s{int(st[key][1:]) + off}"
+        steps = sweep + steps[:max(0, 40 - 0)]
+    scn = {"nodes": nodes, "points": points, "steps": steps, "vars": all_vars + ["absent_v"],
+           "targets": [f"n{t}" for t in targets]}
+    _spell_names(rng, pr, scn)
+    return scn
 
 
 # ---------------------------------------------------------------------------- rewrite-budget exhaustion
